@@ -116,7 +116,6 @@ theorem mem_ancestors_of_subtree {f : Forest} (w : f.W) {a x : Nat} {t : HTree}
     exfalso
     have : x ∉ handlesList f.roots := by
       intro h'
-      have := rootsAnc_dead (h := x) (rs := f.roots)
       cases hp : f.parent? x with
       | none =>
         have := (rootsAnc_root x f.roots h' (by rw [← parent?_eq]; exact hp)).1
@@ -129,7 +128,7 @@ theorem mem_ancestors_of_subtree {f : Forest} (w : f.W) {a x : Nat} {t : HTree}
   | some l =>
     exact rootsAnc_mem_of_find a x f.roots t l w.nodup hg hx hl
 
-/-- A node outside the chain of `x`... contrapositive form: not an ancestor, not in the subtree. -/
+/-- Contrapositive: a node that does not have `a` among its ancestors is not in the subtree at `a`. -/
 theorem not_mem_subtree {f : Forest} (w : f.W) {a x : Nat} {t : HTree}
     (hg : f.get? a = some t) (hx : a ∉ f.ancestors x) : x ∉ handles t :=
   fun h' => hx (mem_ancestors_of_subtree w hg h')
